@@ -264,6 +264,9 @@ def apply(F, S, extra=None):
     diverge = {}   # fn path -> [(diverge-edge site, typestate)]
     evaluated = 0
     loops = 0
+    loops_seen = set()
+    evaluated_fns = []
+    index_calls = set()   # (fn path, line, col) of the slice-index calls recorded as sites
     # P1 + slice-index part of P2: evaluate every hand-written, non-constructor function
     inds_ = set(F.indicators())
 
@@ -295,10 +298,9 @@ def apply(F, S, extra=None):
             continue
         if f.trait_short in ("Next", "Reset") and not f.derived and F.local_trait(f.trait_short):
             S.ok("P0", f.label, blocks=len(f.blocks))
-        for h in cfg.loops():
-            loops += 1
-            S.ok("P3", "%s bb%d" % (f.label, h), driver="Iterator::next on Range/slice::Iter/Enumerate; the None edge leaves the loop")
         ex = r["exec"]
+        loops_seen |= ex.loops_seen
+        evaluated_fns.append(f)
         for site in ex.sites:
             if site["what"] == "diverge-edge":
                 g_ = F.fn_by_path.get(site["path"])
@@ -324,6 +326,8 @@ def apply(F, S, extra=None):
             else:
                 rule, why = discharge(site, ts_site, ex)
             visited.add(key)
+            if site["what"] == "slice-index":
+                index_calls.add((site["path"], site["span"]["line"], site["span"]["col"]))
             counts[site["what"]] = counts.get(site["what"], 0) + 1
             rid = "P1" if site["what"] == "assert" else "P2"
             if rule:
@@ -331,6 +335,17 @@ def apply(F, S, extra=None):
             else:
                 sym = "%s:%s(%s)" % (site["fn"], site["kind"], ",".join(show(v)[:40] for k, v in sorted(site["operands"].items()) if k in ("index", "a", "start", "end")))
                 S.bad(rid, "undischarged", sym, "%s in %s can fail: %s" % ("Assert " + site["kind"] if site["what"] == "assert" else "slice range", site["fn"], why), loc(site["span"]))
+    # P3: every loop of an evaluated function (and of the helpers inlined into them) was summarised by some evaluation; a loop the
+    # evaluator never reached (it pruned the way in) has no termination argument
+    ctor_paths = [g.path for g in F.fns if is_ctor(g)]
+    for f in evaluated_fns + [g for g in F.fns if (g.path in F.helpers() and not F.only_from_constructors(g.path))
+                              or (g.kind == "Closure" and not any(g.path.startswith(c) for c in ctor_paths))]:
+        for h in symex.get_cfg(f).loops():
+            loops += 1
+            if (f.path, h) in loops_seen:
+                S.ok("P3", "%s bb%d" % (f.label, h), driver="Iterator::next on Range/slice::Iter/Enumerate (or a counted `i < bound` loop); the exit edge leaves the loop")
+            else:
+                S.bad("P3", "loop-unvisited", f.label, "the loop at bb%d of %s was never reached by the evaluation: no termination argument" % (h, f.label), loc(f.span))
     # every Assert terminator of the crate outside `new` must have been visited by an evaluation (or sits in dead code)
     for f in F.fns:
         if is_ctor(f) and not f.derived:
@@ -365,8 +380,8 @@ def apply(F, S, extra=None):
                 continue
             if cls == "allocates" and fam == "nopanic":
                 continue
-            if cls == "may_panic" and fam in ("slice-index",):
-                continue  # discharged above as a site
+            if cls == "may_panic" and fam in ("slice-index",) and (f.path, t["span"]["line"], t["span"]["col"]) in index_calls:
+                continue  # discharged above as a site (this very call was recorded by the evaluation)
             if cls == "may_panic" and fam == "unwrap" and f.path in defaults_ok:
                 S.ok("P2", inst, discharged_by="R-default: the constructor, evaluated on the default constants, returns Ok on every path")
                 continue
@@ -377,6 +392,15 @@ def apply(F, S, extra=None):
                     S.ok("P2", "%s bb%s" % (inst, bid), discharged_by=why)
                     continue
             S.bad("P2", "panicking-callee", "%s->%s" % (f.label, callees.strip_turbofish(name)), "%s calls %s (%s/%s): it can panic or is unclassified, and no rule discharges it" % (f.label, name, cls, fam), loc(t["span"]))
+    # P5: core::fmt panics ("Formatting argument out of range") when a run-time width / precision exceeds u16::MAX; the fmt
+    # machinery is otherwise waved through as non-panicking, so run-time counts are not accepted anywhere in the crate
+    for x in F.ast.get("fmt", []):
+        ctx = "::".join(x["ctx"]["path"])
+        dyn = [p for p in x["pieces"] if "lit" not in p and "Argument(" in str(p.get("opts", "")).split("alignment")[0]]
+        if dyn:
+            S.bad("P5", "fmt-runtime-count", ctx, "format string in %s takes its width / precision from a run-time value (`{:1$}`): formatting panics when it exceeds 65535" % ctx, loc(x["span"]))
+        else:
+            S.ok("P5", "%s @%s" % (ctx, x["span"].get("line")), placeholders=sum(1 for p in x["pieces"] if "lit" not in p))
     cyc = callgraph.has_cycle(F)
     if cyc:
         S.bad("P4", "recursion", cyc[0], "recursive call cycle: %s (termination not shown)" % " -> ".join(cyc))
@@ -452,6 +476,7 @@ def run(tier, repo=None, tag="repo"):
     rep.rule("P2", "every panicking callee outside constructors is discharged (slice ranges by typestate, unwrap in default() by the constructor's term); none unclassified", 0)
     rep.rule("P3", "every loop is driven by Iterator::next of a Range / slice iterator (terminates)", 0)
     rep.rule("P4", "no recursion", 1)
+    rep.rule("P5", "no format string takes a width / precision from a run-time value (core::fmt panics above u16::MAX)", 20)
     configs = ["default", "serde"] + (["release"] if tier == "thorough" else [])
     from extract import ExtractError
     for cfg in list(configs):
